@@ -26,7 +26,7 @@ namespace vsp
         }
     };
 
-    inline SplCase gen_spl_case(vg::Src& s, size_t max_side, bool force_single_for_nonlinear)
+    inline SplCase gen_spl_case(vg::Src& s, size_t max_side, bool force_single_for_nonlinear, bool allow_snapshots = false)
     {
         SplCase sc;
         FlowOpts o;
@@ -36,13 +36,15 @@ namespace vsp
         o.ordinary_fields = true;  // |z| <= 100: Newton tolerances >= 1e-9 stay above rounding
         o.every_component = !s.chance(40);
         sc.fc = gen_flow_case(s, o);
-        sc.ops = gen_valid_program(s, false, &sc.pi);
+        sc.ops = gen_valid_program(s, allow_snapshots, &sc.pi);
         static const double ms[] = { 0.5, 0.0, 0.4, 1.0, 2.0 };
         // slope exponents below, at and above one, including values next to one (the linear /
         // non-linear switch) and far from it
-        static const double ns[] = { 1.0, 0.5, 0.8, 1.5, 2.0, 3.0, 0.3, 0.99, 1.01, 4.0 };
+        // (0.9995 / 1.0005: closer to one than the Newton tolerances in use - seeded change C13-G
+        // takes the linear path whenever |n - 1| <= tolerance)
+        static const double ns[] = { 1.0, 0.5, 0.8, 1.5, 2.0, 3.0, 0.3, 0.99, 1.01, 4.0, 0.9995, 1.0005 };
         sc.m = ms[s.weighted({ 90, 30, 50, 50, 36 })];
-        sc.n = ns[s.weighted({ 72, 36, 26, 36, 36, 22, 8, 6, 6, 8 })];
+        sc.n = ns[s.weighted({ 66, 34, 24, 34, 34, 20, 8, 6, 6, 8, 8, 8 })];
         if (force_single_for_nonlinear && sc.pi.final_multi)
             sc.n = 1.0;
         int kexp = static_cast<int>(s.range(0, 8)) - 6;
@@ -167,8 +169,8 @@ namespace vsp
         }
         else if (chg == 3 && !sc.pi.final_multi)
         {
-            static const double ns[] = { 1.0, 0.5, 0.8, 1.5, 2.0, 3.0, 0.3, 0.99, 1.01, 4.0 };
-            sc.n = ns[s.u8() % 10];
+            static const double ns[] = { 1.0, 0.5, 0.8, 1.5, 2.0, 3.0, 0.3, 0.99, 1.01, 4.0, 0.9995, 1.0005 };
+            sc.n = ns[s.u8() % 12];
             r.spl->set_slope_exp(sc.n);
             what += " set_slope_exp(" + vg::fmt(sc.n) + ")";
         }
